@@ -33,6 +33,25 @@ def gen_cases(tier, seed):
         elif r < 0.85:
             spec['plan']['gate'] = {'match': '.read#', 'phase': 'before', 'policy': 'seeded'}
         cases.append(spec)
+    # contention on the tag semaphores: several stream transfers, a thread preempted at each statement of the semaphores /
+    # BoundedExecutor.submit until the others have run as far as they can
+    from .. import windows
+
+    lines = [l for l in windows.candidate_lines() if l[2].startswith(('SlidingWindowSemaphore', 'TaskSemaphore', 'BoundedExecutor.submit'))]
+    for line in lines:
+        for rep in range(2 if quick else 8):
+            n = rng.choice([2, 3])
+            down = rng.random() < 0.6
+            cfg = dict(multipart_threshold=8, multipart_chunksize=8, io_chunksize=4, max_request_concurrency=rng.choice([2, 3, 4]),
+                       max_submission_concurrency=n, max_in_memory_download_chunks=rng.choice([1, 1, 2]), max_in_memory_upload_chunks=rng.choice([1, 2]),
+                       max_io_queue_size=rng.choice([1, 1000]), max_request_queue_size=rng.choice([1, 2, 1000]))
+            if down:
+                ts = [{'kind': 'download', 'dst': rng.choice(['nonseekable', 'fifo']), 'size': rng.choice([24, 33, 41])} for _ in range(n)]
+            else:
+                ts = [{'kind': 'upload', 'src': rng.choice(['nonseekable', 'seekable']), 'size': rng.choice([24, 33, 41])} for _ in range(n)]
+            w = {'file': line[0], 'lineno': line[1], 'name': f'{line[0]}:{line[1]}:{line[2]}', 'nth': rng.randrange(0, 6), 'action': 'pause', 'wait': 0.2}
+            cases.append({'seed': rng.randrange(1 << 30), 'min_part': 8, 'config': cfg, 'transfers': ts,
+                          'yield': {'p': rng.choice([0.0, 0.1]), 'window': w}, 'plan': {'delay_p': rng.choice([0.0, 0.3])}})
     return cases
 
 
